@@ -26,6 +26,14 @@ def family(prog, trait_method):
 
 def calls_to(prog, body, names):
     names = set(names)
+    # a callee of the reference tree that was inlined into this body and deleted is represented by the calls it made
+    extra = set()
+    for h in names:
+        if h not in prog.bodies and h in prog.gone:
+            extra |= prog.inlined_events_of(h, body.id)
+    if extra:
+        names = names | extra
+        return [(b, t) for b, t in body.calls() if prog.call_targets(t) & names or (t.get("res") or t.get("f")) in extra]
     return [(b, t) for b, t in body.calls() if prog.call_targets(t) & names]
 
 
@@ -123,6 +131,14 @@ def rule_result_checked(rep, prog, rule, fid, names, what, key=None):
             # tail position: `_0 = call` directly returned is also fine
             if is_bare(t["dest"]) and t["dest"] == 0:
                 continue
+            # `call(..).map_err(f)?` and the like: the value goes through adapters that keep the error before it is inspected
+            from . import errfate
+            fates = errfate.fate_of_call(body, b, t)
+            if fates and fates <= {"checked", "returned", "passed"} and ({"checked", "returned"} & fates):
+                continue
+            dl = place_local(t["dest"]) if t.get("dest") is not None else None
+            if dl is not None and "Result<" not in body.local_ty_str(dl) and (t.get("res") or t.get("f")) not in names:
+                continue        # a call that stands for an inlined callee (calls_to) and returns no Result
             rep.fail(rule, key, "result of %s is not inspected by `?`/match" % what, site=site(body, b))
             ok = False
     if ok:
@@ -144,6 +160,17 @@ def rule_who_may_call(rep, prog, rule, names, what, allowed, key=None, floor=Non
         folded[r] = why if r not in folded else folded[r] + "; " + why
     if floor is not None:
         floor = min(floor, len(folded))
+    n_orig = len(folded)
+    # a permitted caller that was inlined into its own callers and deleted hands its permission to them
+    for a in list(folded):
+        if a not in prog.bodies and a in prog.gone:
+            for c_ in prog.gone[a]:
+                folded.setdefault(root_fn(c_), folded[a] + " (was `%s`, inlined into this caller)" % short(a))
+            # ... and is itself no longer expected
+            floor = (floor if floor is not None else n_orig) - 1
+            del folded[a]
+    if floor is not None:
+        floor = max(0, min(floor, len(folded)))
     allowed = folded
     callers = {}
     for (b, bi, t) in sites:
